@@ -1,6 +1,7 @@
 (** C16 — lemmas about the decision tree model of promql/series (Model/Series.v). *)
 From Coq Require Import List String ZArith NArith Bool Lia.
-From PintV Require Import Common.Bytes Common.GoTime Model.Range Model.RangeRef Model.Series Proofs.C13_slice.
+From PintV Require Import Common.Bytes Common.GoTime Model.Range Model.RangeRef Model.Series Proofs.C13_slice Proofs.C13_grid
+  Proofs.C13_headline.
 Import ListNotations.
 Open Scope Z_scope.
 
@@ -20,35 +21,35 @@ Section S.
 
   (** --- structure of the selector loop ------------------------------------------------------ *)
 
-  Lemma check_all_entry d others now st rules sels : forall done k o,
-    In (k, o) (check_all re d others now st rules sels done) ->
+  Lemma check_all_entry d others now st rules sels : forall done prior k o,
+    In (k, o) (check_all re d others now st rules sels done prior) ->
     ~ In k done /\
-    exists pre s post, sels = (pre ++ s :: post)%list /\ vs_str s = k /\
+    exists pre s post p, sels = (pre ++ s :: post)%list /\ vs_str s = k /\
       (forall s', In s' pre -> vs_str s' <> k) /\
-      o = check_selector re d others now st rules s.
+      o = verdict re d others now st rules p s.
   Proof.
-    induction sels as [|s r IH]; intros done k o H; cbn [check_all] in H; [contradiction|].
+    induction sels as [|s r IH]; intros done prior k o H; cbn [check_all] in H; [contradiction|].
     destruct (mem_str (vs_str s) done) eqn:E.
-    - destruct (IH done k o H) as [Hnd [pre [s0 [post [Hs [Hk [Hpre Ho]]]]]]].
-      split; [exact Hnd|]. exists (s :: pre), s0, post. subst r. split; [reflexivity|]. split; [exact Hk|].
+    - destruct (IH done prior k o H) as [Hnd [pre [s0 [post [p [Hs [Hk [Hpre Ho]]]]]]]].
+      split; [exact Hnd|]. exists (s :: pre), s0, post, p. subst r. split; [reflexivity|]. split; [exact Hk|].
       split; [|exact Ho]. intros s' [Hs'|Hs']; [|apply Hpre; exact Hs'].
       subst s'. intro Heq. apply Hnd. apply mem_str_In. rewrite <- Heq. exact E.
     - destruct H as [H|H].
       + inversion H; subst k o. split.
         * intro Hin. apply mem_str_In in Hin. congruence.
-        * exists [], s, r. split; [reflexivity|]. split; [reflexivity|]. split; [intros s' []|reflexivity].
-      + destruct (IH (vs_str s :: done) k o H) as [Hnd [pre [s0 [post [Hs [Hk [Hpre Ho]]]]]]].
+        * exists [], s, r, prior. split; [reflexivity|]. split; [reflexivity|]. split; [intros s' []|reflexivity].
+      + destruct (IH (vs_str s :: done) _ k o H) as [Hnd [pre [s0 [post [p [Hs [Hk [Hpre Ho]]]]]]]].
         split; [intro Hin; apply Hnd; right; exact Hin|].
-        exists (s :: pre), s0, post. subst r. split; [reflexivity|]. split; [exact Hk|]. split; [|exact Ho].
+        exists (s :: pre), s0, post, p. subst r. split; [reflexivity|]. split; [exact Hk|]. split; [|exact Ho].
         intros s' [Hs'|Hs']; [|apply Hpre; exact Hs'].
         subst s'. intro Heq. apply Hnd. left. exact Heq.
   Qed.
 
-  Lemma check_all_covers d others now st rules sels : forall done s,
+  Lemma check_all_covers d others now st rules sels : forall done prior s,
     In s sels -> ~ In (vs_str s) done ->
-    In (vs_str s) (map fst (check_all re d others now st rules sels done)).
+    In (vs_str s) (map fst (check_all re d others now st rules sels done prior)).
   Proof.
-    induction sels as [|s0 r IH]; intros done s Hin Hnd; [contradiction|]. cbn [check_all].
+    induction sels as [|s0 r IH]; intros done prior s Hin Hnd; [contradiction|]. cbn [check_all].
     destruct (mem_str (vs_str s0) done) eqn:E.
     - destruct Hin as [Hin|Hin].
       + subst s0. exfalso. apply Hnd. apply mem_str_In. exact E.
@@ -59,21 +60,29 @@ Section S.
         apply IH; [exact Hin|]. intros [H|H]; [congruence|apply Hnd; exact H].
   Qed.
 
-  Lemma check_all_nodup d others now st rules sels : forall done,
-    NoDup (map fst (check_all re d others now st rules sels done)).
+  Lemma check_all_nodup d others now st rules sels : forall done prior,
+    NoDup (map fst (check_all re d others now st rules sels done prior)).
   Proof.
-    induction sels as [|s r IH]; intros done; cbn [check_all]; [constructor|].
+    induction sels as [|s r IH]; intros done prior; cbn [check_all]; [constructor|].
     destruct (mem_str (vs_str s) done); [apply IH|].
     cbn [map fst]. constructor; [|apply IH].
     intro Hin. apply in_map_iff in Hin. destruct Hin as [[k o] [Hk Hin]]. cbn in Hk. subst k.
-    destruct (check_all_entry _ _ _ _ _ _ _ _ _ Hin) as [Hnd _]. apply Hnd. left. reflexivity.
+    destruct (check_all_entry _ _ _ _ _ _ _ _ _ _ Hin) as [Hnd _]. apply Hnd. left. reflexivity.
+  Qed.
+
+  (** a verdict that does not depend on the accumulated problem list is the verdict, known [prior] or not *)
+  Lemma verdict_const d others now st rules s o :
+    (forall b, check_selector re d others now st rules b s = o) -> outcome_eqb o o = true ->
+    forall p, verdict re d others now st rules p s = o.
+  Proof.
+    intros H Hr p. unfold verdict. destruct p as [b|]; [apply H|]. rewrite !H, Hr. reflexivity.
   Qed.
 
   (** --- step 1: present now ----------------------------------------------------------------- *)
 
-  Lemma present_decided d others now st rules s :
+  Lemma present_decided d others now st rules b s :
     is_alerts s = false -> instant_match re d now (vs_matchers s) <> [] ->
-    check_selector re d others now st rules s = Decided [].
+    check_selector re d others now st rules b s = Decided [].
   Proof.
     intros Ha Hp. unfold check_selector. destruct (vs_disabled s || vs_snoozed s); [reflexivity|].
     rewrite Ha, instant_probe_at_now. destruct (instant_match re d now (vs_matchers s)); [contradiction|reflexivity].
@@ -112,7 +121,7 @@ Section S.
     (forall t, In t (probe_points now st) -> instant_match re d t ms = []) ->
     range_probe re d now st ms = Some [].
   Proof.
-    intros Hstep Hnever. unfold range_probe. unfold probe_points in Hnever.
+    intros Hstep Hnever. unfold range_probe, range_probe_pres. unfold probe_points in Hnever.
     assert (range_requests now st <> None) as Htot.
     { unfold range_requests, range_requests_for.
       pose proof (query_slices_total (now - set_lookback st) now (set_lookback st) (set_step st) Hstep) as Htot.
@@ -135,23 +144,202 @@ Section S.
     destruct (instant_probe re o now (vs_matchers s)); reflexivity.
   Qed.
 
-  Lemma never_there_bug d others now st rules s :
+  Lemma never_there_bug d others now st rules b s :
     vs_disabled s = false -> vs_snoozed s = false -> is_alerts s = false ->
     vs_bare_str s <> EmptyString -> 0 <= set_step st ->
     (forall t, In t (probe_points now st) \/ t = now -> instant_match re d t (bare_matchers (vs_matchers s)) = []) ->
     has_recording rules (vs_bare_str s) = false ->
     mem_str (vs_bare_str s) (set_ignored st) = false ->
     (others = [] \/ set_ignore_elsewhere st = []) ->
-    check_selector re d others now st rules s = Decided [(summary_nonexistent, Bug)].
+    check_selector re d others now st rules b s = Decided [(summary_nonexistent, Bug)].
   Proof.
     intros Hd Hz Ha Hb Hstep Hnever Hrec Hign Hoth. unfold check_selector.
     rewrite Hd, Hz, Ha. cbn [orb]. rewrite instant_probe_at_now.
     rewrite (instant_bare_nil d now (vs_matchers s)) by (apply Hnever; right; reflexivity).
     destruct (String.eqb (vs_bare_str s) "") eqn:E; [apply String.eqb_eq in E; contradiction|].
     rewrite range_probe_never; [|exact Hstep|intros t Ht; apply Hnever; left; exact Ht].
-    rewrite Hrec, Hign.
+    rewrite Hrec. unfold sev_of. rewrite Hign.
     assert (should_report re others now st s = true) as Hsr.
     { destruct Hoth as [Ho|Ho]; [subst others; reflexivity|apply should_report_no_ignore; exact Ho]. }
     rewrite Hsr. reflexivity.
+  Qed.
+  (** --- what the range probe returns: the runs of ONE unsliced evaluation (C13) ------------------- *)
+
+  Lemma flat_map_map' {A B C} (f : B -> list C) (g : A -> B) l : flat_map f (map g l) = flat_map (fun x => f (g x)) l.
+  Proof. induction l as [|x r IH]; [reflexivity|]. cbn [map flat_map]. rewrite IH. reflexivity. Qed.
+
+  Lemma range_probe_pres_runs now st pres : sec <= set_step st -> set_step st <= max_int64 - 2 * hour ->
+    exists sl, query_slices (slice_fuel (now - set_lookback st) now (slice_size (set_step st)))
+                 (now - set_lookback st) now (set_lookback st) (set_step st) = Some sl /\
+      first_start sl (now - set_lookback st) <= now - set_lookback st /\
+      range_probe_pres now st pres
+      = Some (runs_of count_fp (set_step st) pres (first_start sl (now - set_lookback st)) now).
+  Proof.
+    intros Hs Hmax. assert (0 <= set_step st) as H0 by (unfold sec in Hs; lia).
+    pose proof (query_slices_total (now - set_lookback st) now (set_lookback st) (set_step st) H0) as Htot.
+    destruct (query_slices _ _ _ _ _) as [sl|] eqn:Hq; [|contradiction]. exists sl. split; [reflexivity|]. split.
+    - destruct (query_slices_shape _ _ _ _ _ sl Hs Hmax Hq) as [E|[m [_ [_ [a [b [r [Es Ha]]]]]]]].
+      + subst sl. cbn [first_start]. lia.
+      + rewrite Es. cbn [first_start]. lia.
+    - unfold range_probe_pres, range_requests, range_requests_for. rewrite Hq. rewrite flat_map_map'.
+      cbn [serve_range rq_start rq_end rq_step].
+      change (fun x : tr => per_slice (set_step st) [(count_fp, pres)] (fst x, snd x))
+        with (fun x : tr => per_slice1 (set_step st) count_fp pres (fst x, snd x)).
+      assert (forall l : list tr, flat_map (fun x : tr => per_slice1 (set_step st) count_fp pres (fst x, snd x)) l
+                                  = flat_map (per_slice1 (set_step st) count_fp pres) l) as Ef.
+      { intro l. induction l as [|[a b] r IH]; [reflexivity|]. cbn [flat_map fst snd]. rewrite IH. reflexivity. }
+      rewrite Ef.
+      apply (finalize_eq_unsliced (set_step st) count_fp pres Hs _ _ _ _ sl sl _ Hmax Hq (Permutation.Permutation_refl sl)).
+      unfold merge_fuel. lia.
+  Qed.
+
+  (** --- FindGaps terminates within its fuel --------------------------------------------------------- *)
+
+  Lemma find_gaps_total step ranges baseline until : 0 < step -> forall fuel gaps from,
+    (1 <= fuel)%nat -> (until - from) / step + 2 <= Z.of_nat fuel ->
+    find_gaps fuel ranges baseline gaps step from until <> None.
+  Proof.
+    intros Hp. induction fuel as [|f IH]; intros gaps from H1 H; [lia|].
+    cbn [find_gaps]. destruct (until <? from) eqn:E; [discriminate|]. apply Z.ltb_ge in E.
+    assert (0 <= (until - from) / step) as Hq by (apply Z.div_pos; lia).
+    assert ((until - (from + step)) / step = (until - from) / step - 1) as Hd.
+    { replace (until - (from + step)) with (until - from + (-1) * step) by lia. rewrite Z.div_add by lia. lia. }
+    assert ((1 <= f)%nat) as Hf by lia.
+    assert ((until - (from + step)) / step + 2 <= Z.of_nat f) as Hn by lia.
+    destruct (covers ranges from || negb (covers baseline from)); [apply IH; assumption|].
+    destruct (extend_gap gaps from step) as [g' found]. apply IH; assumption.
+  Qed.
+
+  Lemma gaps_of_total now st ranges up : 0 < set_step st -> 0 <= set_lookback st -> gaps_of now st ranges up <> None.
+  Proof.
+    intros Hp Hl. unfold gaps_of. unfold gaps_fuel.
+    assert (0 <= (now - (now - set_lookback st)) / set_step st) as Hq by (apply Z.div_pos; lia).
+    apply find_gaps_total; [exact Hp| |]; [|rewrite Z2Nat.id by lia; lia].
+    assert (1 <= Z.of_nat (Z.to_nat ((now - (now - set_lookback st)) / set_step st + 3))) by (rewrite Z2Nat.id by lia; lia).
+    lia.
+  Qed.
+
+  (** --- the verdict depends on the database only through the probe instants ------------------------- *)
+
+  (** two databases answer every selector alike at every instant pint probes: now, and the range grid *)
+  Definition agree (now : Z) (st : settings) (d d' : db) : Prop :=
+    forall t ms, In t (probe_points now st) \/ t = now -> instant_match re d t ms = instant_match re d' t ms.
+
+  Lemma serve_range_ext pres pres' r :
+    (forall t, In t (grid_between (rq_start r) (rq_end r) (rq_step r)) -> pres t = pres' t) ->
+    serve_range pres r = serve_range pres' r.
+  Proof.
+    intros H. unfold serve_range, per_slice. cbn [fold_left fst snd]. unfold server_samples.
+    rewrite (filter_ext_in _ _ _ H). reflexivity.
+  Qed.
+
+  Lemma range_probe_pres_ext now st pres pres' :
+    (forall t, In t (probe_points now st) -> pres t = pres' t) ->
+    range_probe_pres now st pres = range_probe_pres now st pres'.
+  Proof.
+    unfold range_probe_pres, probe_points. destruct (range_requests now st) as [rs|]; [|reflexivity]. intros H.
+    assert (flat_map (serve_range pres) rs = flat_map (serve_range pres') rs) as E.
+    { induction rs as [|r rs IH]; [reflexivity|]. cbn [flat_map] in *. rewrite IH.
+      - rewrite (serve_range_ext pres pres' r); [reflexivity|]. intros t Ht. apply H. apply in_or_app. left. exact Ht.
+      - intros t Ht. apply H. apply in_or_app. right. exact Ht. }
+    rewrite E. reflexivity.
+  Qed.
+
+  Section Ext.
+    Variables (now : Z) (st : settings) (d d' : db).
+    Hypothesis Hag : agree now st d d'.
+
+    Lemma sel_presence_agree ms t : In t (probe_points now st) -> sel_presence re d ms t = sel_presence re d' ms t.
+    Proof. intros Ht. unfold sel_presence. rewrite (Hag t ms (or_introl Ht)). reflexivity. Qed.
+
+    Lemma instant_probe_agree ms : instant_probe re d now ms = instant_probe re d' now ms.
+    Proof. rewrite !instant_probe_at_now. apply Hag. right. reflexivity. Qed.
+
+    Lemma range_probe_agree ms : range_probe re d now st ms = range_probe re d' now st ms.
+    Proof. unfold range_probe. apply range_probe_pres_ext. intros t Ht. apply sel_presence_agree. exact Ht. Qed.
+
+    Lemma uptime_agree : uptime_ranges re d now st = uptime_ranges re d' now st.
+    Proof. unfold uptime_ranges. rewrite range_probe_agree. reflexivity. Qed.
+
+    Lemma pwg_sel_agree ms up :
+      probe_with_gaps now st (sel_presence re d ms) up = probe_with_gaps now st (sel_presence re d' ms) up.
+    Proof.
+      unfold probe_with_gaps. rewrite (range_probe_pres_ext now st (sel_presence re d ms) (sel_presence re d' ms)); [reflexivity|].
+      intros t Ht. apply sel_presence_agree. exact Ht.
+    Qed.
+
+    Lemma pwg_absent_agree ms up :
+      probe_with_gaps now st (absent_presence re d ms) up = probe_with_gaps now st (absent_presence re d' ms) up.
+    Proof.
+      unfold probe_with_gaps.
+      rewrite (range_probe_pres_ext now st (absent_presence re d ms) (absent_presence re d' ms)); [reflexivity|].
+      intros t Ht. unfold absent_presence. rewrite sel_presence_agree by exact Ht. reflexivity.
+    Qed.
+
+    Lemma step3_agree up trs s names : step3 re d now st up trs s names = step3 re d' now st up trs s names.
+    Proof.
+      induction names as [|n r IH]; [reflexivity|]. cbn [step3]. rewrite IH. unfold step3_one.
+      rewrite pwg_absent_agree. reflexivity.
+    Qed.
+
+    Lemma step567_agree up bg s ms : step567 re d now st up bg s ms = step567 re d' now st up bg s ms.
+    Proof.
+      induction ms as [|m r IH]; [reflexivity|]. cbn [step567]. rewrite IH. unfold step567_one.
+      rewrite pwg_sel_agree. reflexivity.
+    Qed.
+
+    Lemma steps_3_to_8_agree prior up trs s :
+      steps_3_to_8 re d now st prior up trs s = steps_3_to_8 re d' now st prior up trs s.
+    Proof. unfold steps_3_to_8. rewrite step3_agree. destruct (gaps_of now st trs up); [|reflexivity].
+      destruct (step3 re d' now st up trs s (label_names s)); [|reflexivity].
+      rewrite step567_agree. reflexivity.
+    Qed.
+
+    Lemma check_selector_agree others rules b s :
+      check_selector re d others now st rules b s = check_selector re d' others now st rules b s.
+    Proof.
+      unfold check_selector. rewrite instant_probe_agree, range_probe_agree, uptime_agree.
+      destruct (vs_disabled s || vs_snoozed s); [reflexivity|]. destruct (is_alerts s); [reflexivity|].
+      destruct (instant_probe re d' now (vs_matchers s)); [|reflexivity].
+      destruct (String.eqb (vs_bare_str s) ""); [reflexivity|].
+      destruct (range_probe re d' now st (bare_matchers (vs_matchers s))) as [[|x r]|]; try reflexivity.
+      destruct (uptime_ranges re d' now st); [|reflexivity]. apply steps_3_to_8_agree.
+    Qed.
+
+    Lemma verdict_agree others rules p s :
+      verdict re d others now st rules p s = verdict re d' others now st rules p s.
+    Proof. unfold verdict. destruct p as [b|]; rewrite ?check_selector_agree; reflexivity. Qed.
+
+    Lemma check_all_agree others rules sels : forall done prior,
+      check_all re d others now st rules sels done prior = check_all re d' others now st rules sels done prior.
+    Proof.
+      induction sels as [|s r IH]; intros done prior; [reflexivity|]. cbn [check_all].
+      destruct (mem_str (vs_str s) done); [apply IH|]. rewrite verdict_agree, IH. reflexivity.
+    Qed.
+  End Ext.
+
+  (** --- step 4: the metric was there from the start of the window and disappeared ------------------- *)
+
+  Lemma disappeared_reported d others now st rules s r up :
+    vs_disabled s = false -> vs_snoozed s = false -> is_alerts s = false ->
+    instant_match re d now (vs_matchers s) = [] -> vs_bare_str s <> EmptyString ->
+    0 < set_step st -> 0 <= set_lookback st ->
+    range_probe re d now st (bare_matchers (vs_matchers s)) = Some [r] ->
+    uptime_ranges re d now st = Some up ->
+    label_names s = [] ->
+    r_start r <= now - set_lookback st + set_step st ->
+    r_end r < now - set_step st ->
+    check_selector re d others now st rules false s =
+      Decided (if r_end r <? now - vs_min_age s then [nonexistent (sev_of st s)] else []).
+  Proof.
+    intros Hd Hz Ha Hi Hb Hp Hlb Hr Hu Hl H1 H2. unfold check_selector. rewrite Hd, Hz, Ha. cbn [orb].
+    rewrite instant_probe_at_now, Hi.
+    destruct (String.eqb (vs_bare_str s) "") eqn:E; [apply String.eqb_eq in E; contradiction|].
+    rewrite Hr, Hu. unfold steps_3_to_8. pose proof (gaps_of_total now st [r] up Hp Hlb) as Hg.
+    destruct (gaps_of now st [r] up) as [bg|]; [|contradiction]. rewrite Hl. cbn [step3 orb negb].
+    cbn [List.length Nat.eqb oldest newest map fold_left andb].
+    assert ((r_start r <=? now - set_lookback st + set_step st) = true) as E1 by (apply Z.leb_le; exact H1).
+    assert ((r_end r <? now - set_step st) = true) as E2 by (apply Z.ltb_lt; exact H2).
+    rewrite E1, E2. cbn [andb]. destruct (r_end r <? now - vs_min_age s); reflexivity.
   Qed.
 End S.
